@@ -259,6 +259,40 @@ def proof_step(prop):
     return res
 
 
+def coqchk_step(prop, res):
+    """thorough tier: re-check the compiled theorems (and all they depend on) with the independent checker"""
+    mods = ["PV.%s.Props" % prop] + (["PV.%s.Run" % prop] if os.path.exists(os.path.join(COQ, prop, "Run.vo")) else [])
+    cmd = "timeout 2400 coqchk -o -silent -R . PV " + " ".join(mods)
+    t0 = time.time()
+    rc, out, _ = sh(cmd, cwd=COQ, timeout=2450)
+    res["checker_cmd"] += " ; " + cmd
+    summary = out[out.find("CONTEXT SUMMARY"):] if "CONTEXT SUMMARY" in out else ""
+    if rc != 0 or not summary:
+        res["failures"].append("coqchk failed (rc %s):\n%s" % (rc, out[-1500:]))
+        return
+    sect = {}
+    cur = None
+    for line in summary.split("\n"):
+        m = re.match(r"\* ([^:]+):\s*(.*)", line.strip())
+        if m:
+            cur = m.group(1).strip()
+            sect[cur] = [m.group(2).strip()] if m.group(2).strip() else []
+        elif cur and line.strip() and not line.startswith("="):
+            sect[cur].append(line.strip())
+    axioms = [a for a in sect.get("Axioms", []) if a != "<none>"]
+    res["coqchk"] = {"wall_s": round(time.time() - t0, 1), "axioms": axioms,
+                     "summary": {k: v for k, v in sect.items() if k != "Axioms"}}
+    bad = [a for a in axioms if not (a.split(" ")[0].startswith(ALLOWED_AXIOM_PREFIXES))]
+    if bad:
+        res["failures"].append("coqchk: non-library axioms in the checked context: %s" % bad)
+    for k in ("Constants/Inductives relying on type-in-type", "Constants/Inductives relying on unsafe (co)fixpoints",
+              "Inductives whose positivity is assumed"):
+        if [x for x in sect.get(k, []) if x != "<none>"]:
+            res["failures"].append("coqchk: %s: %s" % (k, sect[k]))
+    if res["failures"]:
+        res["discharged"] = 0
+
+
 # ------------------------------------------------------------------ worker pool
 class Pool:
     def __init__(self, modname, hashseeds, nproc):
@@ -475,6 +509,8 @@ def run_property(prop, tier, seed, replay=None):
     violations = []  # (replay_path, suffix)
 
     proof = proof_step(prop)
+    if tier == "thorough" and not proof["failures"] and not replay:
+        coqchk_step(prop, proof)
     okb, bout, bcmd = build_driver(prop)
     if not okb:
         proof["failures"].append("extraction/driver build failed:\n" + bout[-1500:])
@@ -580,6 +616,8 @@ def run_property(prop, tier, seed, replay=None):
                 "Coq 8.16.1 kernel (coqc; vm_compute where a theorem says so; no native_compute)",
                 "axioms per theorem (Print Assumptions): " + json.dumps(
                     {k: (v or "closed under the global context") for k, v in proof["axioms"].items()}),
+                "coqchk -o (independent re-check of Props.vo/Run.vo and all their dependencies, thorough tier): " + json.dumps(
+                    proof.get("coqchk", "not run in this tier")),
                 "extraction: ExtrOcamlBasic only, no Extract Constant; OCaml 4.13.1; ocaml/driver_main.ml; a sample of this run's driver requests is re-evaluated inside Coq (vm_compute) and must give the same replies (coverage.extraction_cross_check)",
                 "hand-written Gallina model tied to /repo by this run's correspondence cases",
             ],
